@@ -55,7 +55,7 @@ const C12_RULE: &str = "Scenario seeds are SplitMix64(VERIF_SEED, property, k); 
 const C11_RULE: &str = "Scenario seeds are SplitMix64(VERIF_SEED, property, k); each expands into a 4-node cluster on a healthy network where two nodes receive transactions of sizes 0, 1, 8, 9, batch_size-1, batch_size, batch_size+1, several batch sizes and random, from three client connections each, with arrival gaps 0, sub-millisecond, exactly max_batch_delay, max_batch_delay +- 1 ms and random; batch_size in {1,9,50,200,1000}, max_batch_delay in {5,20,50,100} ms per node.";
 const C13_RULE: &str = "Scenario seeds are SplitMix64(VERIF_SEED, property, k); each expands into a cluster scenario without crashes or view-change faults (timeouts 2-4 s, latencies below 2% of them): client load over all nodes, and for seeded (node, peers, interval) triples the mempool links of a node are cut so that it misses batch broadcasts and must fetch the batches when blocks referencing them arrive (first from the proposer, on failure from random peers); wall-clock jumps.";
 const C06_RULE: &str = "Scenario seeds are SplitMix64(VERIF_SEED, property, k); each expands into a cluster of 4..7 nodes (equal and unequal stakes, optional per-node timeout skew 0.7-1.5x) in which authorities within the stake budget f crash at arbitrary instants (at boot, before, at, after stabilisation), messages suffer heavy-tail delays and finite stalls before a seeded stabilisation instant (nothing is lost between live nodes, all boot together), and afterwards every message takes less than a twelfth of the smallest round timeout.";
-const C07_RULE: &str = "Scenario seeds are SplitMix64(VERIF_SEED, property, k); each expands into a cluster of 4..7 nodes where one seeded node is cut off (all its connections reset and refused) for a seeded interval while the others keep committing, with or without slow-leader view changes inside the gap; after the heal one peer's consensus port may stay mute towards it, and the wall clock may jump.";
+const C07_RULE: &str = "Three quarters of the scenarios: Scenario seeds are SplitMix64(VERIF_SEED, property, k); each expands into a cluster of 4..7 nodes where one seeded node is cut off (all its connections reset and refused) for a seeded interval while the others keep committing, with or without slow-leader view changes inside the gap; after the heal one peer's consensus port may stay mute towards it, and the wall clock may jump; one other node may crash around the heal, or the author of the first proposal that reaches the lagger after the heal crashes at that instant. One quarter: puppet scenarios (world W2) in which the harness withholds a certified parent, leaves the node's first sync request unanswered and keeps delivering further blocks on top of the same missing parent (timed-out rounds) until the node asks the other peers.";
 
 const PUPPET_RULE: &str = "Scenario seeds are SplitMix64(VERIF_SEED, property, k); each expands into a puppet scenario (world W2): ONE real node booted through Node::new, committee of 4..7 with equal or unequal stakes, all other authorities played by the harness which holds their keys. A seeded policy delivers one action per quiescence step (valid proposals for the node's round with or without TC, equivocating siblings, stale proposals, proposals with missing payloads, votes / timeouts trickled to the node one per step when it is the collector, TCs, timer expiries, replays, sync probes) and, with a per-run probability, one of 33 kinds of invalid variant (flipped signature bits, altered signed fields with the signature kept, transplanted signatures across blocks and message kinds, certificates with repeated / non-member signers, below quorum, over another round, for future rounds).";
 
@@ -159,9 +159,9 @@ pub fn specs() -> Vec<PropSpec> {
         spec("C06", crate::gen::c06, C06_RULE, |r| f(r, "crash") > 0 && p(r, "C19.tc-broadcast") > 0,
             "an authority crashed and a timeout certificate was formed",
             &["commit", "C19.tc-broadcast"], 160, 6000),
-        spec("C07", crate::gen::c07, C07_RULE, |r| p(r, "C07.lagger-was-behind") > 0 && p(r, "C07.sync-request") > 0,
-            "the reconnected node was behind the others' committed round and sync requests were sent",
-            &["C07.lagger-was-behind", "C07.sync-reply"], 100, 3000),
+        spec("C07", |s, t| if s % 4 == 0 { crate::gen::puppet("C07", s, t) } else { crate::gen::c07(s, t) }, C07_RULE, |r| (p(r, "C07.lagger-was-behind") > 0 && p(r, "C07.sync-request") > 0) || p(r, "puppet.starve-retry-seen") > 0,
+            "the reconnected node was behind the others' committed round and sync requests were sent; or (puppet scenarios) the node's retry of an unanswered sync request was observed",
+            &["C07.lagger-was-behind", "C07.sync-reply", "puppet.starve-retry-seen"], 120, 3000),
     ]
 }
 
